@@ -11,7 +11,11 @@
     * the tracepoint echo `Extracted.Frames.tracepointOf`.
   Every decision is a definition regenerated from the Python source; this file is glue.  Core Lean only.
 
-  `Spec` (bottom): what the property statement says a snapshot must contain, written without reference to the code.
+  `Spec` (bottom): the readable description the theorems refine to.  Its frame / frame_type / count-vs-text /
+  children-by-kind / truncation / echo parts come from the property statement; the conventions it adopts from the code
+  (scalar type names, exact-`dict` and type-*name* tests, fall-backs, depth rule, de-mangling, modifiers, prefix tests)
+  are listed in the header of Props/C02.lean.  `snapshot` models a line / call event with no log message; the log and
+  return / exception capture variants are not modelled here.
 -/
 import DeepModel.Extracted.Frames
 import DeepModel.Model.Collector
@@ -29,15 +33,14 @@ deriving Repr
 /-- the `f_back` chain of the paused frame, top first -/
 abbrev Stack := List RawFrame
 
-/-- `type(f_locals[name]).__name__` when the local exists and is not `None` -/
-def localClass (H : Heap) (fr : RawFrame) (name : String) : Option String :=
-  match (H.obj fr.locals).dictItems.find? (fun kv => kv.1.isStr && kv.1.text == name) with
-  | some kv => if (H.obj kv.2).tyName == "NoneType" then none else some (H.obj kv.2).tyName
-  | none => none
+/-- `f_locals.get(name)` as far as the class-name rule looks at it: `none` = no such local, or `None`; else the
+    outcome of reading its `__class__.__name__` -/
+def localSelf (fr : RawFrame) (name : String) : Option (Option String) :=
+  (fr.classes.find? (fun e => e.1 == name)).map (·.2)
 
 /-- `_process_frame` for one real frame, given the variable references the collector produced for it -/
 def frameRecord (H : Heap) (app : AppCfg) (fr : RawFrame) (vars : List VarId) : StackFrame VarId :=
-  processFrame app.incl app.excl app.root fr vars (classNameOf (localClass H fr))
+  processFrame app.incl app.excl app.root fr vars (classNameOf (localSelf fr))
 
 /-- the frames `FrameCollector.collect` visits, in order -/
 def visited (stack : Stack) : Stack := stack.drop walkSkip
@@ -97,7 +100,7 @@ def snapshot (H : Heap) (tpId path : String) (line : Int) (config : Cfg) (app : 
   | .failed m => .error m
   | .ok s => .ok ⟨tracepointOf tpId path line config, walk H app stack s.frames, s.table, s.watches⟩
 
-/-! ## the statement -/
+/-! ## the description the theorems refine to (statement + the code's conventions, see Props/C02.lean) -/
 namespace Spec
 
 /-- frame_type: `all_frame` = every frame, `no_frame` = none, anything else = the paused frame only -/
@@ -122,8 +125,13 @@ def appFrame (app : AppCfg) (file : String) : Bool × String :=
     | some p => (true, Py.sliceFrom file (Py.len p))
     | none => (false, file)
 
-/-- class of `self` -/
-def classOfSelf (H : Heap) (fr : RawFrame) : Option String := localClass H fr "self"
+/-- class of `self`: the name of the class the local `self` reports (`self.__class__.__name__` — what `isinstance` and
+    the developer reading the method see; for ordinary objects the same as `type(self).__name__`); nothing when the
+    frame has no `self`, it is `None`, or its class cannot be read -/
+def classOfSelf (fr : RawFrame) : Option String :=
+  match fr.classes.find? (fun e => e.1 == "self") with
+  | some (_, some n) => some n
+  | _ => none
 
 /-- one frame of the real stack as a snapshot must show it -/
 structure FrameView where
@@ -136,7 +144,7 @@ structure FrameView where
 deriving Repr, DecidableEq
 
 def frameView (H : Heap) (app : AppCfg) (fr : RawFrame) : FrameView :=
-  ⟨fr.co_filename, (appFrame app fr.co_filename).2, fr.co_name, fr.f_lineno, classOfSelf H fr,
+  ⟨fr.co_filename, (appFrame app fr.co_filename).2, fr.co_name, fr.f_lineno, classOfSelf fr,
    (appFrame app fr.co_filename).1⟩
 
 def viewOf (s : StackFrame VarId) : FrameView :=
@@ -150,7 +158,8 @@ def isSeq (o : PyObj) : Bool :=
 
 def isContainer (o : PyObj) : Bool := o.isDictExact || isSeq o
 
-/-- types whose values are shown as text only -/
+/-- types whose values are shown as text only — the code's NO_CHILD_TYPES taken over as a convention (the statement only
+    says "children of containers and objects") -/
 def isScalar (o : PyObj) : Bool :=
   isIterator o || ["str", "int", "float", "bool", "NoneType", "type", "module", "unicode", "long", "traceback"].contains o.tyName
 
